@@ -185,6 +185,24 @@ class ProgGen:
 
 
 def gen_case(rng, name, *, n_nodes=None, **kw) -> Case:
+    """(A feedback is never bound to a reference-shaped port - what such an edge carries while the reference designates a target
+    without value is not defined; a binding can reach a selection through sub-graph parameters, so the flattened program is
+    checked and the draw repeated.)"""
+    for _ in range(30):
+        c = _gen_case(rng, name, n_nodes=n_nodes, **kw)
+        if not kw.get("allow_ite"):
+            return c
+        try:
+            from . import model as M
+            flat = M.flatten(c)
+        except Exception:
+            return c
+        if not any(i.op == "fb" and i.fb_source is not None and i.fb_source.target.op == "ite" for i in flat.insts):
+            return c
+    return c
+
+
+def _gen_case(rng, name, *, n_nodes=None, **kw) -> Case:
     start = rng.choice([0, 0, 3, 10])
     end = start + rng.choice([12, 25, 40, 60])
     c = Case(name, start, end)
